@@ -1,6 +1,7 @@
 package sx
 
 import (
+	"fmt"
 	"strings"
 
 	"verifharness/vh"
@@ -22,7 +23,8 @@ type Step struct {
 }
 
 type PExp struct {
-	Op   string     `json:"op"` // childeq attreq selfeq texteq desceq haschild hasattr childpred and or not
+	Op   string     `json:"op"` // childeq attreq selfeq texteq desceq haschild hasattr childpred attreqchild childposeq count and or not
+	N    int        `json:"n,omitempty"` // childposeq: position (1..4); count: number (0..4)
 	NT   *NT        `json:"nt,omitempty"`
 	Name *[2]string `json:"name,omitempty"` // prefix, local (attribute tests)
 	V    string     `json:"v,omitempty"`
@@ -88,14 +90,29 @@ func (p *PExp) xpath() string {
 		return "@" + nameXPath(p.Name)
 	case "childpred":
 		return p.NT.xpath() + "[" + p.P.xpath() + "]"
+	case "attreqchild":
+		return "@" + nameXPath(p.Name) + "=" + p.NT.xpath()
+	case "childposeq":
+		return p.NT.xpath() + "[" + fmt.Sprint(p.N) + "]=" + quote(p.V)
+	case "count":
+		return "count(" + p.NT.xpath() + ")=" + fmt.Sprint(p.N)
 	case "and":
-		return "(" + p.P.xpath() + ") and (" + p.Q.xpath() + ")"
+		return p.P.operand() + " and " + p.Q.operand()
 	case "or":
-		return "(" + p.P.xpath() + ") or (" + p.Q.xpath() + ")"
+		return p.P.operand() + " or " + p.Q.operand()
 	case "not":
 		return "not(" + p.P.xpath() + ")"
 	}
 	panic("bad pexp op " + p.Op)
+}
+
+// operand renders an operand of and/or: parenthesised only when it is and/or itself, so that a
+// predicate can begin with an attribute test ([@type='web' and status='ok']).
+func (p *PExp) operand() string {
+	if p.Op == "and" || p.Op == "or" {
+		return "(" + p.xpath() + ")"
+	}
+	return p.xpath()
 }
 
 func (p *PExp) coq() string {
@@ -117,6 +134,12 @@ func (p *PExp) coq() string {
 		return "(PHasAttr " + nameCoq(p.Name) + ")"
 	case "childpred":
 		return "(PChildPred " + p.NT.coq() + " " + p.P.coq() + ")"
+	case "attreqchild":
+		return "(PAttrEqChild " + nameCoq(p.Name) + " " + p.NT.coq() + ")"
+	case "childposeq":
+		return "(PChildPosEq " + p.NT.coq() + " " + vh.CoqNat(p.N) + " " + v + ")"
+	case "count":
+		return "(PCount " + p.NT.coq() + " " + vh.CoqNat(p.N) + ")"
 	case "and":
 		return "(PAnd " + p.P.coq() + " " + p.Q.coq() + ")"
 	case "or":
@@ -131,7 +154,7 @@ func (p *PExp) hasChildPred() bool {
 	if p == nil {
 		return false
 	}
-	return p.Op == "childpred" || p.P.hasChildPred() || p.Q.hasChildPred()
+	return p.Op == "childpred" || p.Op == "childposeq" || p.P.hasChildPred() || p.Q.hasChildPred()
 }
 
 func (p *PExp) kinds(acc map[string]bool) {
@@ -213,8 +236,8 @@ func (v *Vocab) value(r *vh.Rng) string {
 }
 
 func genPExp(r *vh.Rng, v *Vocab, depth int) *PExp {
-	k := r.Pick(13)
-	if depth >= 2 && k >= 7 {
+	k := r.Pick(16)
+	if depth >= 2 && k >= 7 && k < 13 {
 		k = r.Pick(7)
 	}
 	nt := v.name(r)
@@ -259,9 +282,82 @@ func genPExp(r *vh.Rng, v *Vocab, depth int) *PExp {
 			a = genPExp(r, v, 2)
 		}
 		return &PExp{Op: op, P: a, Q: b}
+	case 13:
+		return &PExp{Op: "attreqchild", Name: &an, NT: &nt}
+	case 14:
+		return &PExp{Op: "childposeq", NT: &nt, N: r.Between(1, 3), V: v.value(r)}
+	case 15:
+		return &PExp{Op: "count", NT: &nt, N: r.Between(0, 3)}
 	default:
 		return &PExp{Op: "not", P: genPExp(r, v, depth+1)}
 	}
+}
+
+// falsify turns an atomic fact into a predicate of the same kind that (most likely) does not hold.
+func falsify(r *vh.Rng, f *PExp) *PExp {
+	g := *f
+	switch f.Op {
+	case "childeq", "attreq", "selfeq", "texteq", "desceq", "childposeq":
+		g.V = f.V + r.PickStr("~", "0", " x")
+	case "count":
+		g.N = f.N + 1
+	case "haschild":
+		n := NT{Local: "zz"}
+		g.NT = &n
+	case "hasattr":
+		n := [2]string{"", "zz"}
+		g.Name = &n
+	default:
+		return &PExp{Op: "not", P: f}
+	}
+	return &g
+}
+
+func isAttrAtom(p *PExp) bool { return p.Op == "attreq" || p.Op == "hasattr" || p.Op == "attreqchild" }
+
+// mixedPExp builds ONE predicate that begins with an attribute test and goes on to inspect the
+// element's content: @a='..' and x='..', @a or not(x), @ref=total and count(x)=2, ... with the
+// attribute part and the content part independently true or false of the element aimed at.
+func mixedPExp(r *vh.Rng, v *Vocab, facts []*PExp) *PExp {
+	var attrs, content []*PExp
+	for _, f := range facts {
+		if isAttrAtom(f) {
+			attrs = append(attrs, f)
+		} else {
+			content = append(content, f)
+		}
+	}
+	pick := func(fs []*PExp, attr bool) *PExp {
+		var a *PExp
+		if len(fs) > 0 && !r.Chance(0.1) {
+			a = fs[r.Pick(len(fs))]
+		} else if attr {
+			n := [2]string{"", r.PickStr("id", "k", "t")}
+			a = &PExp{Op: "hasattr", Name: &n}
+		} else {
+			nt := v.name(r)
+			a = &PExp{Op: "haschild", NT: &nt}
+		}
+		if r.Chance(0.4) {
+			a = falsify(r, a)
+		}
+		return a
+	}
+	a, b := pick(attrs, true), pick(content, false)
+	if r.Chance(0.2) {
+		b = &PExp{Op: "not", P: b}
+	}
+	op := r.PickStr("and", "or", "and")
+	p := &PExp{Op: op, P: a, Q: b}
+	if r.Chance(0.25) { // a third operand: @a and b and c, @a or (b and c)
+		c := pick(content, false)
+		if r.Chance(0.5) && !b.hasChildPred() {
+			p = &PExp{Op: r.PickStr("and", "or"), P: p, Q: c}
+		} else {
+			p = &PExp{Op: op, P: a, Q: &PExp{Op: r.PickStr("and", "or"), P: pick(attrs, true), Q: c}}
+		}
+	}
+	return p
 }
 
 // GenTarget aims at an existing element most of the time: its absolute path with some steps
@@ -310,10 +406,22 @@ func GenTarget(r *vh.Rng, v *Vocab, maxFilters int, allowRoot bool) Target {
 	for i := 0; i < nf; i++ {
 		// most of the time a predicate that holds of the element aimed at, so that siblings
 		// with the same path are told apart by it (rejected and accepted candidates mix)
+		if r.Chance(0.3) {
+			t.Filters = append(t.Filters, mixedPExp(r, v, facts))
+			continue
+		}
 		if len(facts) > 0 && r.Chance(0.6) {
 			f := facts[r.Pick(len(facts))]
 			if r.Chance(0.2) {
-				f = &PExp{Op: "and", P: f, Q: genPExp(r, v, 1)}
+				if f.hasChildPred() { // no filtered step in a left operand (engine, see genPExp)
+					g := genPExp(r, v, 2)
+					for g.hasChildPred() {
+						g = genPExp(r, v, 2)
+					}
+					f = &PExp{Op: "and", P: g, Q: f}
+				} else {
+					f = &PExp{Op: "and", P: f, Q: genPExp(r, v, 1)}
+				}
 			} else if r.Chance(0.1) {
 				f = &PExp{Op: "not", P: &PExp{Op: "not", P: f}}
 			}
